@@ -1794,9 +1794,6 @@ class IPv6Obj(object):
         if v6input is None:
             self.empty = True
         elif isinstance(v6input, str):
-            if len(v6input) > IPV6_MAXSTR_LEN:
-                raise RequirementFailure()
-
             tmp = re.split(r"\s+", v6input.strip())
             if len(tmp) == 2:
                 v6input = "/".join(tmp)
@@ -1804,6 +1801,11 @@ class IPv6Obj(object):
                 v6input = tmp[0]
             else:
                 raise NotImplementedError(v6input.strip())
+
+            # Check the length after whitespace is normalized so surrounding
+            # blanks do not count against a valid address
+            if len(v6input) > IPV6_MAXSTR_LEN:
+                raise RequirementFailure()
 
             v6_str_rgx = _RGX_IPV6ADDR.search(v6input.strip())
             # Example 'v6_groupdict'
